@@ -208,6 +208,10 @@ zckRange ZCK_PUBLIC_API *zck_get_missing_range(zckCtx *zck, int max_ranges) {
         if(chk->valid)
             continue;
 
+        /* A chunk with no stored bytes has nothing to request */
+        if(chk->comp_length == 0)
+            continue;
+
         if(!range_add(range, chk, zck)) {
             zck_range_free(&range);
             return NULL;
